@@ -64,6 +64,11 @@ pub struct Update {
     pub role: Option<usize>,
     /// (index into that role's targets, what happens to it)
     pub ops: Vec<(usize, UpdKind)>,
+    /// the final sign() is given too few keys for the edited role (none of the targets keys for the
+    /// top-level role; fewer than its threshold for a delegated role, which is then not signed
+    /// separately beforehand): sign() has to refuse, or else everything staged must be in the result
+    #[serde(default)]
+    pub short_keys: bool,
 }
 
 #[derive(Clone, Debug, Serialize, Deserialize)]
@@ -121,7 +126,7 @@ impl Check for C10 {
         "C10"
     }
     fn rule(&self) -> String {
-        "editing programs against tough's real editor: a delegation tree of depth <=3 (fan-out <=2..3) whose roles hold 0..40 targets (sizes 0..32 KiB, names with spaces, non-ASCII, sub-directories, so delegated files are smaller and larger than targets.json), 1..3 keys of mixed algorithms and thresholds 1..3 per role, noise operations (add-then-remove, clear, replace, version set twice), both consistent-snapshot settings, copy or symlink publication, final signing with adequate or inadequate key sets; optionally the cross-party flow with incoming metadata that is genuine, under-signed, carrying a duplicated signature, signed by the wrong keys, older, or genuine but listing a target outside the delegated paths; non-trivial = sign and write succeeded for a tree with at least one delegated role, or a hostile incoming document was offered; distinct = distinct canonical trace".into()
+        "editing programs against tough's real editor: a delegation tree of depth <=3 (fan-out <=2..3) whose roles hold 0..40 targets (sizes 0..32 KiB, names with spaces, non-ASCII, sub-directories, so delegated files are smaller and larger than targets.json), 1..3 keys of mixed algorithms and thresholds 1..3 per role, noise operations (add-then-remove, clear, replace, version set twice), both consistent-snapshot settings, copy or symlink publication, final signing with adequate or inadequate key sets; a later owner session on the written repository (replace / remove / re-add existing targets), signed with adequate keys or with too few for the edited role; optionally the cross-party flow with incoming metadata that is genuine, under-signed, carrying a duplicated signature, signed by the wrong keys, older, or genuine but listing a target outside the delegated paths; non-trivial = sign and write succeeded for a tree with at least one delegated role, or a hostile incoming document was offered; distinct = distinct canonical trace".into()
     }
     fn assumptions(&self) -> Vec<String> {
         vec![
@@ -140,10 +145,10 @@ impl Check for C10 {
         }
     }
     fn required_faults(&self, _t: Tier) -> Vec<&'static str> {
-        vec!["inadequate_key_set", "incoming_under_signed", "incoming_duplicated_signature", "incoming_wrong_keys", "incoming_older", "incoming_out_of_path"]
+        vec!["inadequate_key_set", "incoming_under_signed", "incoming_duplicated_signature", "incoming_wrong_keys", "incoming_older", "incoming_out_of_path", "update_signed_with_too_few_keys"]
     }
     fn required_probes(&self, _t: Tier) -> Vec<&'static str> {
-        vec!["written_repository_loaded_and_matches_model", "owner_update_session_matches_model", "all_targets_read_back", "delegated_role_larger_than_targets_json", "genuine_incoming_incorporated", "hostile_incoming_refused", "out_of_path_incoming_refused", "inadequate_keys_refused"]
+        vec!["written_repository_loaded_and_matches_model", "owner_update_session_matches_model", "all_targets_read_back", "delegated_role_larger_than_targets_json", "genuine_incoming_incorporated", "hostile_incoming_refused", "out_of_path_incoming_refused", "inadequate_keys_refused", "inadequate_update_keys_refused"]
     }
     fn generate(&self, seed: u64, _tier: Tier) -> Sc {
         let mut r = Rng::new(seed);
@@ -186,7 +191,7 @@ impl Check for C10 {
                     ops.push((i, *r.pick(&[UpdKind::Replace, UpdKind::Remove, UpdKind::ReplaceThenRemove, UpdKind::RemoveThenReAdd])));
                 }
             }
-            Some(Update { role, ops })
+            Some(Update { role, ops, short_keys: r.chance(1, 4) })
         } else {
             None
         };
@@ -442,17 +447,30 @@ impl Check for C10 {
                     }
                 }
                 ed.targets_version(nz(rm.version + 1)).map_err(|e| variant(&e))?.targets_expires(dt(T0 + rm.expires_days * DAY)).map_err(|e| variant(&e))?;
-                if u.role.is_some() {
+                if u.role.is_some() && !u.short_keys {
                     ed.sign_targets_editor(&rm.sources(w)).await.map_err(|e| format!("sign role: {}", variant(&e)))?;
                 }
                 ed.snapshot_version(nz(sc.snap_v + 1)).snapshot_expires(dt(T0 + 30 * DAY)).timestamp_version(nz(sc.ts_v + 1)).timestamp_expires(dt(T0 + 2 * DAY));
-                let signed = ed.sign(&top_sources(sc, SignWith::AllKeys)).await.map_err(|e| format!("sign: {}", variant(&e)))?;
+                let final_keys = if !u.short_keys {
+                    top_sources(sc, SignWith::AllKeys)
+                } else if u.role.is_none() {
+                    top_sources(sc, SignWith::NoTargetsKey)
+                } else {
+                    let mut k = top_sources(sc, SignWith::AllKeys);
+                    k.extend(rm.sources(w).into_iter().take((rm.thr as usize).saturating_sub(1)));
+                    k
+                };
+                let signed = ed.sign(&final_keys).await.map_err(|e| format!("sign: {}", variant(&e)))?;
                 signed.write(&meta3).await.map_err(|e| format!("write: {}", variant(&e)))?;
                 Ok(())
             });
             drain_blocking();
-            o.ev(format!("update session role={:?} ops={:?} -> {session:?}", u.role, u.ops));
+            o.ev(format!("update session role={:?} ops={:?} short_keys={} -> {session:?}", u.role, u.ops, u.short_keys));
+            if u.short_keys {
+                o.fault("update_signed_with_too_few_keys");
+            }
             match session {
+                Err(e) if u.short_keys && e.starts_with("sign:") => o.probe("inadequate_update_keys_refused"),
                 Err(e) => o.violate(format!("owner-update-session-refused:{}", e.split(':').next().unwrap_or("")), e),
                 Ok(()) => {
                     // publish the replaced contents the way the client will ask for them
